@@ -6,6 +6,9 @@ ALL = ["C%02d" % i for i in range(1, 37)]
 
 # id -> (design section, technique, level text, level note)
 CLAIMED = {
+ "C11": ("§2 C11", "CFG must-pass-through with computed always-erroring functions; constant folding of variant sets; interprocedural forward dataflow of possible language variants and possible current tokens (least fixpoint over call sites, token production sites and per-value return summaries)",
+  "Decides all three clauses structurally. Recovery: after every recoverError() that returns false, every path to the exit reports an error, so accepted inputs never reach a recovery site and parse identically with recovery on. Bash/Bats: every variant set tested anywhere in package syntax contains LangBash and LangBats together or neither (one designed exception, @test, is a listed known finding). POSIX gating: an interprocedural analysis computes, for every point of the parser, the variants under which it is reachable by a still-accepted input; every construction site of a non-POSIX node type, field or operator must exclude LangPOSIX. The analysis found three ungated sites on the pinned tree (two repaired by fix: commits, array syntax in POSIX mode listed as known findings).",
+  "Sound relative to: variant tests happen only through in(), checkLang() and direct comparison (enumerated); errPass makes the parse fail; the table of non-POSIX constructs (node documentation plus an explicit field/operator table in the checker). Operators inside arithmetic that the parser gates nowhere are outside the table. Does not decide that Bash and Bats trees are equal beyond taking the same branches."),
  "C13": ("§2 C13", "who-may-construct for QuoteError, enclosing-condition matching of each refusal, rune-table agreement lexer/Quote (case-set extraction)",
   "Decides that Quote refuses only at its four documented sites, each under its documented variant and rune condition; that every rune which starts a token in the lexer, separates words, escapes or starts a comment triggers quoting, with the unquoted return guarded by the three tests; and that the double-quote fallback escapes every rune the lexer treats specially inside double quotes. A token rune left unquoted yields more than one word for some string, so these are necessary conditions over all strings and variants.",
   "Does not decide that the quoting styles expand back to the input in the real shells, nor the $'..' escape table. Trusts constant evaluation by go/types."),
